@@ -55,12 +55,31 @@ VALUES = {'ListOperations': 'operations', 'GetOperation': 'operations/op1', 'Del
           'ListLocations': 'projects/p1'}
 
 
-def yaml_of(listed, ruled):
+# superseded rules: service-configuration rules are "last one wins" (google/api/http.proto), so a selector that occurs twice
+# is governed by its later rule
+STALE = {
+    'GetOperation': ('get', '/v1beta1/{name=operations/*}', None),
+    'CancelOperation': ('post', '/v1beta1/{name=operations/*}:cancel', None),
+    'GetIamPolicy': ('post', '/v1beta1/{resource=shelves/*}:getIamPolicy', '*'),
+    'ListLocations': ('get', '/v1beta1/{name=projects/*}/locations', None),
+}
+
+
+def yaml_of(listed, ruled, stale=(), selective=None):
     y = f'type: google.api.Service\nconfig_version: 3\nname: mix.example.com\ntitle: Mix\napis:\n- name: {P}.Lib\n'
     for a in listed:
         y += f'- name: {a}\n'
+    if selective is not None:
+        internal, methods = selective
+        y += ('publishing:\n  library_settings:\n'
+              f'  - version: {P}\n    python_settings:\n      common:\n        selective_gapic_generation:\n'
+              f'          generate_omitted_as_internal: {"true" if internal else "false"}\n          methods:\n'
+              + ''.join(f'          - {P}.{m}\n' for m in methods))
     if ruled:
         y += 'http:\n  rules:\n'
+        for m in stale:
+            verb, path, body = STALE[m]
+            y += f"  - selector: {CANON[m][0]}.{m}\n    {verb}: '{path}'\n" + (f"    body: '{body}'\n" if body else '')
         for m in ruled:
             api = CANON[m][0]
             verb, path, body, extra = RULES[m]
@@ -94,6 +113,11 @@ def states():
                     legacy=False))
     out.append(dict(id='legacy-add-iam-methods', listed=[], ruled=[], own_iam=False, legacy=True))
     out.append(dict(id='legacy-add-iam-methods+iam-mixin', listed=[IAM], ruled=BY_API[IAM], own_iam=False, legacy=True))
+    out.append(dict(id='duplicate-selectors', listed=[OPS, IAM, LOC], ruled=list(CANON), stale=list(STALE), own_iam=False, legacy=False))
+    # mixins next to selective generation: the mixin RPCs are not subject to the method allow-list
+    for internal in (False, True):
+        out.append(dict(id=f'selective/{"internal" if internal else "pruned"}', listed=[OPS, IAM, LOC], ruled=list(CANON),
+                        selective=(internal, ['Lib.GetBook']), own_iam=False, legacy=False))
     out.append(dict(id='no-yaml', listed=None, ruled=[], own_iam=False, legacy=False))
     return out
 
@@ -118,6 +142,8 @@ def unjudged(st):
 def build(st, transport):
     msgs = [message('Book', [field('name', 1, 'string')]), message('GetBookRequest', [field('name', 1, 'string')])]
     meths = [method('GetBook', Q('GetBookRequest'), Q('Book'), http=('get', '/v1/{name=books/*}'))]
+    if st.get('selective'):
+        meths.append(method('GetOtherBook', Q('GetBookRequest'), Q('Book'), http=('get', '/v1/{name=otherBooks/*}')))
     mods = ['google.iam.v1.iam_policy_pb2']
     own = method('SetIamPolicy', '.google.iam.v1.SetIamPolicyRequest', '.google.iam.v1.Policy',
                  http=('post', '/v1/{resource=books/*}:setIamPolicy', '*'))
@@ -134,7 +160,7 @@ def build(st, transport):
     of = None
     if st['listed'] is not None:
         param += ',service-yaml=@svc.yaml@'
-        of = {'svc.yaml': yaml_of(st['listed'], st['ruled'])}
+        of = {'svc.yaml': yaml_of(st['listed'], st['ruled'], st.get('stale', ()), st.get('selective'))}
     if st['legacy']:
         param += ',add-iam-methods'
     req = request([f], param, extra_dep_modules=mods)
@@ -147,7 +173,7 @@ def make_job(st, transport):
     return dict(id=f'{st["id"]}|{transport}', req=req.SerializeToString(), opt_files=of, probe='mc.probes.mixins',
                 probe_args=dict(package=names.import_package(P), transport=transport, canon={k: list(v) for k, v in CANON.items()},
                                 rules={k: [v[0], v[1], v[2], [list(x) for x in v[3]]] for k, v in RULES.items()}, values=VALUES,
-                                legacy=st['legacy'], own_iam=st['own_iam'], ruled=st['ruled'], service=st.get('own_svc', 'Lib'),
+                                legacy=st['legacy'], own_iam=st['own_iam'], ruled=st['ruled'], service=('BaseLib' if st.get('selective') and st['selective'][0] else st.get('own_svc', 'Lib')),
                                 own_path=f'/{P}.{st.get("own_svc", "Lib")}/SetIamPolicy'),
                 _st=st, _transport=transport)
 
